@@ -3,6 +3,7 @@ package main
 
 import (
 	"bytes"
+	"math/big"
 	"fmt"
 	"os"
 	"sync"
@@ -25,6 +26,7 @@ var mixes = map[string][]string{
 	"default": nil,
 	"gov": {"stake", "stake", "votebp", "votebp", "votebp", "votedao", "votedao", "xfer", "name", "name-update", "votebp-nostake", "unstake"},
 	"wide": {"xfer", "xfer-new", "xfer", "xfer-zero"},
+	"ties":     {"stake", "stake", "votedao", "votedao", "votedao", "xfer"},
 	"contract": {"deploy", "call-inc", "call-inc", "call-pay", "call-payfail", "call-fail", "call-guarded", "call-nested", "call-default", "feedeleg", "xfer"},
 }
 
@@ -37,8 +39,9 @@ func main() {
 	type cfg struct {
 		name   string
 		public bool
+		vault  bool // fund aergo.vault so that the per-block voting reward is paid
 	}
-	cfgs := []cfg{{"pub", true}, {"priv", false}}
+	cfgs := []cfg{{"pub", true, false}, {"priv", false, false}, {"pub-vault", true, true}}
 	nblocks := c.Pick(16, 40)
 	nval := c.Pick(3, 8)
 	seeds := c.Pick(1, 3)
@@ -48,11 +51,11 @@ func main() {
 		for _, cf := range cfgs {
 			wg.Add(1)
 			sem <- struct{}{}
-			go func(name string, public bool, s int) {
+			go func(name string, public, vault bool, s int) {
 				defer wg.Done()
 				defer func() { <-sem }()
-				run(c, fmt.Sprintf("%s-s%d", name, s), public, nblocks, nval)
-			}(cf.name, cf.public, s)
+				run(c, fmt.Sprintf("%s-s%d", name, s), public, vault, nblocks, nval)
+			}(cf.name, cf.public, cf.vault, s)
 		}
 	}
 	wg.Wait()
@@ -62,7 +65,7 @@ func main() {
 		"the property's static scan for wall-clock/unseeded randomness is not an execution and is not performed")
 }
 
-func run(c *vf.Ctx, name string, public bool, nblocks, nval int) {
+func run(c *vf.Ctx, name string, public, vault bool, nblocks, nval int) {
 	w := rig.NewWorld(name, c.Scratch(), rig.WorldOpts{Public: public, NAccts: 70})
 	cb := rig.NewAcct(name+"/cb", 0)
 	w.Tmpl.Coinbase = cb.B58()
@@ -101,11 +104,16 @@ func run(c *vf.Ctx, name string, public bool, nblocks, nval int) {
 	}
 	dAlive := true
 	g := rig.NewGen(w, c.Rand("gen/"+name))
+	g.MaxAcct = len(w.Accts) - 1 // the last account is the scenario's own (vault funding)
 	r := c.Rand("mix/" + name)
-	mixNames := []string{"default", "gov", "wide", "contract", "default", "gov"}
+	mixNames := []string{"default", "gov", "wide", "contract", "ties", "gov", "ties"}
 	for no := uint64(1); no <= uint64(nblocks); no++ {
 		mix := mixNames[r.Intn(len(mixNames))]
+		if vault && no <= 4 {
+			mix = "gov" // voters first: the reward goes to a voter picked from the voting-power ranking
+		}
 		g.Kinds = mixes[mix]
+		g.Ties = mix == "ties"
 		ntx := 6 + r.Intn(20)
 		if mix == "wide" {
 			ntx = 70 + r.Intn(30)
@@ -113,12 +121,21 @@ func run(c *vf.Ctx, name string, public bool, nblocks, nval int) {
 		best, _ := prod.Best()
 		ts := best.TS + 1e9
 		st := &rig.Step{No: no, Cands: g.Block(no, ntx)}
+		if vault && no == 1 {
+			last := w.Accts[len(w.Accts)-1]
+			ftx := rig.TxSpec{Type: 4, From: last, To: []byte("aergo.vault"), Amount: new(big.Int).Mul(big.NewInt(5000), rig.Aergo), Nonce: 1,
+				ChainID: w.CIDHash(no), GasPrice: big.NewInt(50000000000)}.Build()
+			st.Cands = append([]*rig.GTx{{Desc: "fund-vault", Kind: "xfer", From: len(w.Accts) - 1, Tx: ftx, Expect: "ok"}}, st.Cands...)
+		}
 		for _, x := range st.Cands {
 			st.Descs = append(st.Descs, x.Desc)
 		}
 		txs := st.TxBytes()
 		rsp, err := prod.Produce(&rig.ProduceReq{Txs: txs, TS: ts, Connect: true, Confirms: -1, SignKey: 0})
 		c.Eval(1)
+		if vault && rsp != nil && len(rsp.Consensus) > 0 {
+			c.Count("blocks_with_voting_reward_winner", 1)
+		}
 		if err != nil {
 			c.Violation("producer-died", fmt.Sprintf("%s block %d: %v", name, no, err), caseDesc{Config: name, Block: no, Txs: st.Descs})
 			return
